@@ -396,6 +396,9 @@ def rules(ctx):
     r4_length(ctx)
     r4b_single_writer(ctx)
     r6_iteration_counter(ctx)
+    # the burn-in length an algorithm derives stays in its own copy of the parameters (same rule as C11.R7)
+    from .c11 import r7_deepcopy
+    r7_deepcopy(ctx, rid="C05.R7")
     r5_statistics_not_rewritten(ctx)
     ctx.trust("Python int comparison / arithmetic semantics for the enumerated guards; sympy expand")
 
